@@ -57,6 +57,11 @@ type Task struct {
 	StallEnd time.Duration
 	Stalled  bool
 	Panic    string
+	// simulated blocking (simlock.go)
+	blockedOn    uintptr
+	blockedWrite bool
+	blockedSite  string
+	blockEpoch   uint64
 }
 
 func (t *Task) Done() bool   { return t.state == stDone }
@@ -100,6 +105,11 @@ type Sim struct {
 	states  map[string]bool
 	bgCount map[string]int
 	held    map[uint64]int // instrumented locks held per goroutine
+	// SimLocks: the simulator takes instrumented locks cooperatively and simulates
+	// blocking (simlock.go); tasks may then be parked inside critical sections.
+	SimLocks  bool
+	pendingW  map[uintptr]int // writers parked on a mutex
+	lockEpoch uint64          // bumped at every acquisition and release
 }
 
 func NewSim(scen string, seed uint64, tape *Tape) *Sim {
@@ -107,7 +117,7 @@ func NewSim(scen string, seed uint64, tape *Tape) *Sim {
 		Scenario: scen, Seed: seed, Tape: tape, Start: time.Now(),
 		Knobs: map[string]any{}, byGID: map[uint64]*Task{},
 		states: map[string]bool{}, bgCount: map[string]int{}, held: map[uint64]int{},
-		LogEngineEvents: true,
+		pendingW: map[uintptr]int{}, LogEngineEvents: true,
 	}
 	s.Stats.Faults = map[string]int{}
 	s.Stats.Yields = map[string]int{}
@@ -121,6 +131,7 @@ func NewSim(scen string, seed uint64, tape *Tape) *Sim {
 	verifhook.OrderFn = s.hookOrder
 	verifhook.AcquireFn = s.hookAcquire
 	verifhook.ReleaseFn = s.hookRelease
+	verifhook.SimLockFn = s.hookSimLock
 	return s
 }
 
@@ -132,6 +143,7 @@ func (s *Sim) Detach() {
 	verifhook.OrderFn = nil
 	verifhook.AcquireFn = nil
 	verifhook.ReleaseFn = nil
+	verifhook.SimLockFn = nil
 }
 
 func curGID() uint64 {
@@ -230,9 +242,13 @@ func (s *Sim) hookAcquire() {
 func (s *Sim) hookRelease(site string) {
 	gid := curGID()
 	s.mu.Lock()
+	s.lockEpoch++
 	if n := s.held[gid]; n > 1 {
 		s.held[gid] = n - 1
 		s.mu.Unlock()
+		if s.SimLocks {
+			s.yieldAt(gid, "unlock", []string{site})
+		}
 		return
 	}
 	delete(s.held, gid)
@@ -252,7 +268,7 @@ func (s *Sim) yieldAt(gid uint64, point string, args []string) {
 		s.Event("trace", fmt.Sprint(gid), point, strings.Join(args, " "))
 	}
 	s.mu.Lock()
-	if gid == s.rootGID || s.held[gid] > 0 {
+	if gid == s.rootGID || (s.held[gid] > 0 && !s.SimLocks) {
 		s.mu.Unlock()
 		return
 	}
@@ -261,6 +277,13 @@ func (s *Sim) yieldAt(gid uint64, point string, args []string) {
 	harness := t != nil && t.Harness
 	if s.YieldOn == nil || !s.YieldOn(point, args, harness) {
 		return
+	}
+	if s.SimLocks {
+		s.mu.Lock()
+		if s.held[gid] > 0 {
+			s.Stats.Probes["task_parked_while_holding_a_lock"]++
+		}
+		s.mu.Unlock()
 	}
 	if t == nil {
 		s.mu.Lock()
